@@ -134,6 +134,8 @@ def check_loop(case):
     judge_call(out, "loopback", reg, name, args, kwargs, r, got, exc)
     if hist.requests != [s[2] for s in t.sent] or hist.responses != t.replies:
         out.bad("C01/history-differs-from-exchanged-texts", "history %r / %r, exchanged %r / %r" % (hist.requests, hist.responses, [s[2] for s in t.sent], t.replies))
+    if hist.request != (t.sent[-1][2] if t.sent else None) or hist.response != (t.replies[-1] if t.replies else None):
+        out.bad("C01/history-differs-from-exchanged-texts", "History.request / History.response %r / %r are not the latest exchanged texts" % (hist.request, hist.response))
     return out
 
 
@@ -171,7 +173,7 @@ def leg_loop(part, tier, shard, nshards):
 # -- sessions: several calls on one proxy (state carried from one call to the next) ------------------------
 
 
-SESSION_STEPS = [("f", "pos1"), ("ns.f", "kw2"), ("a.b.c", "pos2"), ("BATCH", ""), ("NOTIFY", "pos1"), ("REREG", "f"), ("REREG", "a.b.c"), ("REREG", "ns.f")]
+SESSION_STEPS = [("f", "pos1"), ("ns.f", "kw2"), ("a.b.c", "pos2"), ("BATCH", ""), ("NOTIFY", "pos1"), ("REREG", "f"), ("REREG", "a.b.c"), ("REREG", "ns.f"), ("CLEAR", "")]
 
 
 def session_cases(tier):
@@ -195,6 +197,7 @@ def check_session(case):
     t = LoopbackTransport(d)
     hist = History()
     proxy = jsonrpclib.ServerProxy("http://h/", transport=t, version=cv, history=hist)
+    base = 0  # index of the first exchange after the last History.clear()
     for pos, si in enumerate(seq):
         name, style = steps[si]
         v = leaves[(vi + pos * 3) % len(leaves)]
@@ -205,6 +208,12 @@ def check_session(case):
         try:
             if name == "REREG":
                 reg.reregister(d, style)
+                continue
+            if name == "CLEAR":
+                hist.clear()
+                base = len(t.sent)
+                if hist.request is not None or hist.response is not None or hist.requests or hist.responses:
+                    out.bad("C01/history-differs-from-exchanged-texts", "session %r step %d: the history is not empty after clear()" % (case, pos))
                 continue
             if name == "BATCH":
                 mc = jsonrpclib.MultiCall(proxy)
@@ -225,8 +234,12 @@ def check_session(case):
             out.bad("C01/session/raises-%s" % type(ex).__name__, "session %r step %d raised %r" % (case, pos, ex))
         if out.viols:
             break
-    if hist.requests != [x[2] for x in t.sent] or hist.responses != t.replies:
+    sent = [x[2] for x in t.sent][base:]
+    replies = t.replies[base:]
+    if hist.requests != sent or hist.responses != replies:
         out.bad("C01/history-differs-from-exchanged-texts", "session %r: history does not equal the exchanged texts in order" % (case,))
+    if hist.request != (sent[-1] if sent else None) or hist.response != (replies[-1] if replies else None):
+        out.bad("C01/history-differs-from-exchanged-texts", "session %r: History.request / History.response are not the latest exchanged texts" % (case,))
     return out
 
 
@@ -625,7 +638,7 @@ META = {
     "rule": "loopback: 9 method names (identifier, dotted registered name, instance attribute path, non-ASCII, with space, hyphen, underscore, keyword) x 5 "
     "argument styles x 23 leaf values x client/server versions {1.0,2.0}^2 x translation on/off x {plain, dotted chain}; plus every JSON value of depth <=1 "
     "(thorough <=2, capped at 60000) width <=2 as argument and return value; sessions: every sequence of 3 (thorough 4) steps over {4 calls, batch, notification, "
-    "re-registration of a name} on one proxy with one History (the newest registration must be the one invoked); translation-off: payloads with "
+    "re-registration of a name, History.clear()} on one proxy with one History (the newest registration must be the one invoked); translation-off: payloads with "
     "'__jsonclass__' members as plain data through loopback and real servers configured with use_jsonclass=False; multicall: every batch of <=3 jobs over 6 job kinds (calls and notifications) x "
     "values x server version; kernel-sockets: SimpleJSONRPCServer and PooledJSONRPCServer x TCP/Unix x versions x 29 values (leaves, nested, >1 KiB "
     "multi-byte, >2 KiB of blanks); python-values: 23 values of non-exact Python types (OrderedDict, Counter, defaultdict, dict/list/str/int subclasses, tuples, "
